@@ -13,7 +13,7 @@ TASK = 'django_evolution/evolve/evolve_app_task.py'
 PURGE = 'django_evolution/evolve/purge_app_task.py'
 EVBASE = 'django_evolution/evolve/base.py'
 
-RUNMOD = ['SQLExecutor._latest_transaction', 'AtomicCM.using', 'tx', 'tx_db', 'exec_n', 'failed', 'failed_stmt']
+RUNMOD = ['SQLExecutor._latest_transaction', 'AtomicCM.using', 'tx', 'tx_db', 'exec_n', 'failed', 'failed_stmt', 'exec_log']
 EXC = K.Opt(K.Atom('ExcInfo'))
 PARAMS = K.Opt(K.Seq(K.Atom('Param')))     # None or a tuple of bound parameters
 STMT = K.Tuple(K.Str, PARAMS)
@@ -56,6 +56,7 @@ def build():
     w.ghost_var('tx', K.Int)                    # transaction monitor
     w.ghost_var('tx_db', K.Opt(K.Str))          # alias the open transaction was started on
     w.ghost_var('exec_n', K.Int)                # number of cursor.execute calls
+    w.ghost_var('exec_log', K.Seq(STMT))        # every (statement, params) handed to cursor.execute, in order
     w.ghost_var('failed', K.Bool)               # a cursor.execute raised
     w.ghost_var('failed_stmt', STMT)            # ... on this statement
 
@@ -77,8 +78,8 @@ def build():
                 'roll back when exception info is passed; assumed not to raise')
     w.stub('Cursor.execute', params={'self': K.Ref('Cursor'), 'statement': K.Str, 'params': PARAMS},
            may_raise=['DatabaseError'],
-           effects=['exec_n = exec_n + 1'],
-           effects_exc=['exec_n = exec_n + 1',
+           effects=['exec_n = exec_n + 1', 'exec_log = exec_log + [(statement, params)]'],
+           effects_exc=['exec_n = exec_n + 1', 'exec_log = exec_log + [(statement, params)]',
                         'failed = True', 'failed_stmt = (statement, params)'],
            note='database cursor; may raise any database error')
     w.stub('Cursor.close', params={'self': K.Ref('Cursor')})
@@ -103,6 +104,7 @@ def build():
                  "forall(Ref_SQLExecutor, lambda r: implies(r is not self, "
                  "       r._latest_transaction == old(r._latest_transaction)))"])
     w.kinds['Ref_SQLExecutor'] = K.Ref('SQLExecutor')
+    w.kinds['Int'] = K.Int
     w.contract(
         'SQLExecutor.new_transaction', module=SQLPY, serves=['C07', 'C16'],
         params={'self': K.Ref('SQLExecutor')},
@@ -156,7 +158,7 @@ def build():
     w.stub('render_sql', params={'statement': K.Str, 'params': PARAMS}, returns=K.Str, pure=True,
            note="statement % tuple(quote_sql_param(p) for p in params): the preview's rendering (C14)")
     w.contract(
-        'SQLExecutor.run_sql', module=SQLPY, serves=['C07'],
+        'SQLExecutor.run_sql', module=SQLPY, serves=['C07', 'C14'],
         params={'self': K.Ref('SQLExecutor'), 'sql': K.Seq(SQL), 'capture': K.Bool, 'execute': K.Bool},
         defaults={'capture': False, 'execute': False},
         returns=K.Seq(K.Str),
@@ -165,20 +167,27 @@ def build():
         locals={'out_sql': K.Seq(K.Str), 'statement': K.Opt(K.Str), 'params': PARAMS},
         raises={'Exception': True}, modifies=RUNMOD,
         exc_fields={'last_sql_statement': K.Tuple(K.Opt(K.Str), PARAMS)},
-        abstract={"if capture:\n                        if params:":
-                  ["if capture:\n    out_sql = out_sql + [render_sql(statement, params)]"]},
+
         invariants={
             1: LoopInv('for batch, use_transaction in batches:', index='b0',
                        clauses=[INV, 'tx == old(tx)', 'not failed', 'exec_n == old(exec_n)',
                                 'statement is None', 'params is None']),
             2: LoopInv('for i, (batch, use_transaction) in enumerate(batches):', index='bi',
                        clauses=[INV, 'tx != TXERROR', 'not failed',
+                                # the preview lists exactly the statements handed to the cursor, in order
+                                # one preview line per statement handed to the cursor, in lockstep (plus one marker per later batch)
+                                'implies(capture and execute, len(out_sql) == exec_n - old(exec_n) + ite(bi > 0, bi - 1, 0))',
+                                'implies(not capture, len(out_sql) == 0)', 'implies(not execute, exec_log == old(exec_log))',
+                                'len(exec_log) - len(old(exec_log)) == exec_n - old(exec_n)',
                                 'implies(not execute, tx == old(tx) and exec_n == old(exec_n))',
                                 'implies(tx == INTX, tx_db == self._database)',
                                 'self._cursor is not None', 'self._cursor == old(self._cursor)',
                                 'self._database == old(self._database)']),
             3: LoopInv('for statement, params in batch:', index='si',
                        clauses=[INV, 'tx != TXERROR', 'not failed',
+                                'implies(capture and execute, len(out_sql) == exec_n - old(exec_n) + bi)',
+                                'implies(not capture, len(out_sql) == 0)', 'implies(not execute, exec_log == old(exec_log))',
+                                'len(exec_log) - len(old(exec_log)) == exec_n - old(exec_n)',
                                 'implies(not execute, tx == old(tx) and exec_n == old(exec_n))',
                                 # every statement of a transactional batch runs inside a transaction on this database
                                 'implies(execute and use_transaction, tx == INTX and tx_db == self._database)',
@@ -189,7 +198,11 @@ def build():
         },
         ensures=[INV, 'tx != TXERROR', 'not failed',
                  'implies(not execute, tx == old(tx) and exec_n == old(exec_n))',
-                 'implies(tx == INTX, tx_db == self._database)'],
+                 'implies(tx == INTX, tx_db == self._database)',
+                 # C14: for one and the same SQL list, what the preview shows is what gets executed
+                 'implies(capture and execute, exists(Int, lambda m: m >= 0 and len(result) == exec_n - old(exec_n) + m))',
+                 'implies(not capture, len(result) == 0)',
+                 'implies(not execute, exec_log == old(exec_log))'],
         ensures_exc=[INV, 'tx != TXERROR',
                      'implies(tx == INTX, tx_db == self._database)',
                      # error identification: the augmented exception names the failing statement
